@@ -255,7 +255,18 @@ int16_t COLssActivateBitTiming(CO_LSS *lss, CO_IF_FRM *frm)
     CONmtSetMode(&lss->Node->Nmt, CO_INIT);
     COIfCanClose(&lss->Node->If);
     tmr       = &lss->Node->Tmr;
+    if (lss->Tmr >= 0) {             /* restart a pending switch-over        */
+        (void)COTmrDelete(tmr, lss->Tmr);
+        lss->Tmr = -1;
+    }
     ticks     = COTmrGetTicks(tmr, delay, CO_TMR_UNIT_1MS);
+    if (ticks == 0) {                /* no delay requested: switch at once   */
+        COIfCanInit(&lss->Node->If, lss->Node);
+        COIfCanEnable(&lss->Node->If, lss->CfgBaudrate);
+        CONmtSetMode(&lss->Node->Nmt, CO_PREOP);
+        lss->ActStep = 0;
+        return -1;
+    }
     lss->ActStep = 1;
     lss->Tmr  = COTmrCreate(tmr,
                 0,
